@@ -393,6 +393,24 @@ pub fn phase(sim: &mut Sim, rng: &mut Rng, rep: &mut Report) -> Result<(), Strin
 			sim.w.miner_min_feerate = new;
 			rep.count("onchain_fee_level_changes");
 		}
+		// without a fee market only the nodes' estimators move (the miner takes everything): a claim held back by the
+		// miner's delay is re-issued under an estimate that may have collapsed meanwhile (U1f: never a lower feerate)
+		if !fee_market && chase.is_none() && rng.chance(1, 8) {
+			let cur = sim.w.fee_now;
+			let new = match rng.below(5) {
+				0 | 1 => cur.saturating_mul(2),
+				2 => cur / 2,
+				3 => cur / 10,
+				_ => cur + 250,
+			}
+			.clamp(253, 12_000);
+			sim.w.note(format!("ONCHAIN estimators {} -> {} (no miner policy)", cur, new));
+			for k in 0..n {
+				sim.w.nodes[k].set_fee(new);
+			}
+			sim.w.fee_now = new;
+			rep.count("onchain_estimator_only_fee_changes");
+		}
 		// a competing fork: the last d < 6 blocks (never below the height at which the close began) leave
 		// the chain; the cheater may not bother to get its second-stage transactions confirmed again
 		// (no block that ever had six confirmations is disconnected: depth is counted from the highest tip seen)
